@@ -373,9 +373,11 @@ def gen_world(
             s = pick(rng, sorted(var["formulas"]))
             leaf = g.read(target_index=pick(rng, same_unit), earlier_only=chance(rng, 0.5))
             if leaf[0] != "rd":
-                leaf = ["rd", world["variables"][pick(rng, same_unit)]["name"], "this", None, g._via(world["variables"][same_unit[0]])]
-                if leaf[4] == "skip":
+                tgt = world["variables"][pick(rng, same_unit)]
+                via = g._via(tgt)
+                if via == "skip":
                     continue
+                leaf = ["rd", tgt["name"], "this", None, via]
             expr = ["b", "+", leaf, var["formulas"][s]]
             if others and chance(rng, 0.6):
                 o = world["variables"][pick(rng, others)]
